@@ -50,7 +50,7 @@ pid_t STUB(wait4)(pid_t pid, int *wstatus, int options, struct rusage *ru)
 {
 	int i = g_wait_calls;
 
-	__CPROVER_assert(g_lock_held, "[C11,C14] children are reaped under the wait lock");
+	__CPROVER_assert(g_lock_held, "[C11,C14,C19] children are reaped under the wait lock: reaping a pid and marking its interest dead are one critical section, so the kill helper (which tests the mark under the same lock) never signals a reaped pid");
 	__CPROVER_assert(pid == -1 && options == (WNOHANG | WUNTRACED | WCONTINUED), "[C11] reaps any child, non-blocking, with stop and continue reports");
 	__CPROVER_assert(i <= K, "wait4 call count within the bound of this unit");
 	g_wait_calls++;
